@@ -58,6 +58,23 @@ type sessCfg struct {
 	// hist mode: further Run calls on the SAME connected Network, in this
 	// order at every party (cfg.pc / cfg.inputs are the first call)
 	more []*histStep
+	// repr mode (repr.go): per party, the input in the form the API accepts
+	// (IOArg.Parse texts / a direct *big.Int of any sign and magnitude);
+	// inputs[p] == repr[p].value.  nil in the other modes.
+	repr []*partyInput
+}
+
+// computeInputs: the argument list of Circuit.Compute (one value per
+// flattened member of every party's argument).
+func computeInputs(inputs []*big.Int, repr []*partyInput) []*big.Int {
+	if repr == nil {
+		return inputs
+	}
+	var flat []*big.Int
+	for _, in := range repr {
+		flat = append(flat, in.members...)
+	}
+	return flat
 }
 
 // histStep is one further Run call of a history.
@@ -66,6 +83,7 @@ type histStep struct {
 	rel    string // relation to the circuit of the previous call
 	inputs []*big.Int
 	gaps   []time.Duration // per party: pause before this call
+	repr   []*partyInput   // repr mode: see sessCfg.repr
 }
 
 type sessOut struct {
